@@ -21,10 +21,10 @@
    callback.  EOF is [None]. *)
 From Coq Require Import List NArith Bool Arith.
 Import ListNotations.
-Open Scope N_scope.
+Local Open Scope N_scope.
 
-Definition item := N.
-Definition rune := option N.          (* None = scanner.EOF (-1) *)
+Notation item := N (only parsing).
+Notation rune := (option N) (only parsing).   (* None = scanner.EOF (-1) *)
 
 Definition bad_limit : N := 1114112.  (* 0x110000 *)
 Definition rune_error : N := 65533.   (* utf8.RuneError U+FFFD *)
